@@ -3,7 +3,7 @@
     ([run_eq]: both programs are decision trees over the same reader operations; execute both on an arbitrary
     input, splitting on every test either of them performs). *)
 From Coq Require Import NArith List Bool Lia.
-From RL Require Import Model.Decode Proofs.ReaderLemmas Proofs.RefineAvp.
+From RL Require Import Model.Decode Model.Encode Proofs.ReaderLemmas Proofs.RefineAvp.
 Import ListNotations. Open Scope N_scope.
 
 (** the source's [(data >> i) & 0x1 != 0] is the Model's [N.testbit data i] *)
@@ -124,3 +124,28 @@ Ltac loop_eq IH :=
   gen_norm; cbv [len_ skip_ bytes_ sub_]; cbn [run bind obind];
   repeat (first [reflexivity | progress (rewrite ?run_bind) | progress (rewrite ?IH)
                 | run_split; cbn [run obind bind] | obind_split; cbn [run obind bind]]).
+
+(** * encoders *)
+Lemma land3_mod256 x : N.land x 3 mod 256 = N.land x 3.
+Proof.
+  change 3 with (N.ones 2). rewrite N.land_ones. apply N.mod_small.
+  assert (x mod 2 ^ 2 < 2 ^ 2) by (apply N.mod_lt; discriminate).
+  change (2 ^ 2) with 4 in *. lia.
+Qed.
+Lemma obind_val {A} (x : outcome A) : obind x (fun a => Val a) = x.
+Proof. destruct x; reflexivity. Qed.
+Lemma split16 x : x mod 65536 = x mod 256 + 256 * ((x / 256) mod 256).
+Proof. change 65536 with (256 * 256). apply N.mod_mul_r; discriminate. Qed.
+(** the source's [(length as u16).to_be_bytes()] after [assert!(length <= u16::MAX)] *)
+Lemma be16_mod x : be16 (x mod 65536) = be16 x.
+Proof.
+  unfold be16. rewrite split16. f_equal; [|f_equal].
+  - rewrite (N.mul_comm 256), N.div_add by discriminate.
+    rewrite (N.div_small (x mod 256)) by (apply N.mod_lt; discriminate).
+    rewrite N.add_0_l. apply N.mod_mod. discriminate.
+  - rewrite (N.mul_comm 256), N.mod_add by discriminate. apply N.mod_mod. discriminate.
+Qed.
+(** split on a guard that the source writes as [a <= b] and the Model as [b < a] *)
+Ltac guard2 c1 c2 :=
+  let E1 := fresh "E" in let E2 := fresh "E" in
+  destruct c1 eqn:E1; destruct c2 eqn:E2; grd; try lia; try reflexivity.
